@@ -31,7 +31,9 @@ func init() {
 		Rule: "case = (policy, parameters, pool state, client address): pool sizes 0..N with every availability vector over {ok, unhealthy, failed, full} (exhaustive), " +
 			"connection-count vectors, single- and multi-peer upstreams, IPv4/IPv6 clients with and without port; oracle: no panic, result is available (independent availability from the state the " +
 			"harness set), none only when nothing is available, plus per-policy contract (first = earliest; round_robin = every window of |avail| results is a permutation; ip_hash = stable, " +
-			"unaffected by removing another upstream, port-independent; least_conn = minimum connections; random = every available seen). Concurrent round_robin histories are checked with porcupine. " +
+			"unaffected by removing another upstream, port-independent; least_conn = minimum connections; random = every available seen). Concurrent round_robin histories are checked with porcupine; tight concurrent loops on an all-available pool must return every upstream floor(T/n)..ceil(T/n) times. " +
+			"Provisioned pools: the proxy handler is loaded from JSON (passive policy none / fail_duration only / max_fails 2 / unhealthy_connection_count / both, per-upstream max_connections, 1-2 peers), " +
+			"peer counters are set, and every policy must return an upstream that is available under the limits the configuration implies (default max_fails 1, unhealthy_connection_count as default max_connections). " +
 			"non-trivial = pool has both available and unavailable members; distinct = hash(policy, parameters, state)",
 		Assumptions: []string{
 			"pool state is constructed through the verif-tagged export VerifNewUpstream (white-box) and is static during a sequential case",
@@ -44,11 +46,13 @@ func init() {
 					{Name: "enum", Mode: "enum", Shards: 12, Timeout: 30 * time.Minute},
 					{Name: "conc", Mode: "conc", Shards: 4, Timeout: 30 * time.Minute},
 					{Name: "conc-race", Mode: "conc", Race: true, Shards: 2, Timeout: 30 * time.Minute},
+					{Name: "prov", Mode: "prov", Shards: 4, Timeout: 30 * time.Minute},
 				}
 			}
 			return []fw.ChildSpec{
 				{Name: "enum", Mode: "enum", Shards: 8, Timeout: 10 * time.Minute},
 				{Name: "conc", Mode: "conc", Shards: 2, Timeout: 10 * time.Minute},
+				{Name: "prov", Mode: "prov", Shards: 2, Timeout: 10 * time.Minute},
 			}
 		},
 		Run:    run,
@@ -176,6 +180,11 @@ func run(c *fw.Ctx) {
 	hmods.Quiet(c.OutDir + "/caddyhome")
 	if c.Mode == "conc" {
 		runConcurrent(c)
+		runTight(c)
+		return
+	}
+	if c.Mode == "prov" {
+		runProvisioned(c)
 		return
 	}
 	maxN := c.Pick(6, 8)
@@ -482,7 +491,84 @@ func runConcurrent(c *fw.Ctx) {
 	}
 }
 
+// runTight: G goroutines call Select in tight loops (nothing recorded inside the loop) on a pool whose upstreams are
+// all available. Every selection takes exactly one step of the rotation, so after T selections in total each of
+// the n upstreams has been returned floor(T/n) or ceil(T/n) times - whatever the interleaving. A rotation step
+// that is not one atomic read-modify-write loses or repeats steps and breaks the count.
+func runTight(c *fw.Ctx) {
+	rounds := c.Pick(6, 40)
+	for k := 0; k < rounds; k++ {
+		if !c.Mine(k) {
+			continue
+		}
+		r := fw.Rand(c.Seed, "c10tight", k)
+		n := []int{2, 3, 4, 5, 7}[r.Intn(5)]
+		workers := []int{4, 8, 16}[r.Intn(3)]
+		per := c.Pick(20000, 60000)
+		st := State{Codes: strings.Repeat("o", n)}
+		pool, _ := st.build()
+		rr := &l4proxy.RoundRobinSelection{}
+		cx := connFor(clients[0])
+		counts := make([][]int, workers)
+		var wg sync.WaitGroup
+		start := make(chan struct{})
+		for w := 0; w < workers; w++ {
+			counts[w] = make([]int, n+1)
+			wg.Add(1)
+			go func(w int) {
+				defer wg.Done()
+				<-start
+				for i := 0; i < per; i++ {
+					idx := indexOf(pool, rr.Select(pool, cx))
+					if idx < 0 {
+						idx = n
+					}
+					counts[w][idx]++
+				}
+			}(w)
+		}
+		close(start)
+		wg.Wait()
+		total := make([]int, n+1)
+		for w := range counts {
+			for i, v := range counts[w] {
+				total[i] += v
+			}
+		}
+		T := workers * per
+		lo, hi := T/n, (T+n-1)/n
+		bad := total[n] > 0
+		for i := 0; i < n; i++ {
+			if total[i] < lo || total[i] > hi {
+				bad = true
+			}
+		}
+		c.Obs("tight_loop_selects", int64(T))
+		if bad {
+			c.Violation("C10 round_robin concurrent selections are not one rotation step each", fmt.Sprintf("%d goroutines x %d selections on %d available upstreams: counts %v (none: %d), every upstream must have been returned %d..%d times", workers, per, n, total[:n], total[n], lo, hi),
+				map[string]any{"n": n, "workers": workers, "per": per, "counts": total})
+		}
+		c.Case(fw.Hash("tight", n, workers, k), true, func() any {
+			return map[string]any{"upstreams": n, "goroutines": workers, "selections_each": per, "counts": total[:n]}
+		})
+	}
+}
+
 func replay(c *fw.Ctx, raw json.RawMessage) {
+	var pw struct {
+		Case *ProvCase `json:"case"`
+	}
+	var direct ProvCase
+	if json.Unmarshal(raw, &direct) == nil && len(direct.Peers) > 0 {
+		pw.Case = &direct
+	} else {
+		_ = json.Unmarshal(raw, &pw)
+	}
+	if pw.Case != nil && len(pw.Case.Peers) > 0 {
+		hmods.Quiet(c.OutDir + "/caddyhome")
+		runProvisionedCase(c, pw.Case)
+		return
+	}
 	var w witness
 	if err := json.Unmarshal(raw, &w); err != nil || w.State.Codes == "" && w.Policy == "" {
 		fmt.Println("replay: cannot decode (concurrent histories are not replayable deterministically):", err)
